@@ -260,7 +260,7 @@ class PInner:
 
 def build_path(spec, engine):
     from typing import Annotated, Any, List, Dict
-    tps = {'int': int, 'str': str, 'ints': List[int], 'dict': Dict[str, int], 'any': Any, 'inst': PInner}
+    tps = {'int': int, 'str': str, 'float': float, 'bool': bool, 'ints': List[int], 'dict': Dict[str, int], 'any': Any, 'inst': PInner}
     facs = {'ints': list, 'dict': dict, 'any': list, 'inst': PInner}
     req, opt = [], []
     for f in spec['fields']:
@@ -270,6 +270,8 @@ def build_path(spec, engine):
             kw['default'] = f['default']
         elif f['dflt'] == 'fac':
             kw['default_factory'] = facs[f['ty']]
+        if not f.get('init', True):
+            kw['init'] = False
         if f.get('path'):
             dotted = '.'.join(f['path'])
             if engine == 'v1':
@@ -282,6 +284,17 @@ def build_path(spec, engine):
             else:
                 from dataclass_wizard import path_field
                 fld = path_field(dotted, **kw)
+        elif f.get('aliases'):
+            if engine == 'v1':
+                from dataclass_wizard.v1 import Alias
+                fld = Alias(*f['aliases'], **kw)
+            elif f.get('style') == 'json_key':
+                from dataclass_wizard import json_key
+                tp = Annotated[tp, json_key(*f['aliases'], all=True)]
+                fld = dataclasses.field(**kw)
+            else:
+                from dataclass_wizard import json_field
+                fld = json_field(tuple(f['aliases']), all=True, **kw)
         else:
             fld = dataclasses.field(**kw)
         (req if f['dflt'] == 'req' else opt).append((f['name'], tp, fld))
@@ -334,16 +347,19 @@ def run_pathclass(item):
                     # identity of the values of the factory fields in two instances
                     shared = []
                     for f in spec['fields']:
-                        if f['dflt'] == 'fac' and (f['name'] not in doc if not f.get('path') else
-                                                   not (isinstance(doc.get(f['path'][0]), dict) and f['path'][1] in doc[f['path'][0]])):
+                        if f['dflt'] == 'fac' and (not f.get('init', True) or
+                                                   (not any(k in doc for k in (f.get('aliases') or [f['name']])) if not f.get('path') else
+                                                    not (isinstance(doc.get(f['path'][0]), dict) and f['path'][1] in doc[f['path'][0]]))):
                             a, b = getattr(insts[0], f['name'], None), getattr(insts[1], f['name'], None)
                             if a is b and a is not None:
                                 shared.append(f['name'])
                     res['shared'] = shared
                     def absent(f):
+                        if not f.get('init', True):
+                            return True
                         if f.get('path'):
                             return not (isinstance(doc.get(f['path'][0]), dict) and f['path'][1] in doc[f['path'][0]])
-                        return f['name'] not in doc
+                        return not any(k in doc for k in (f.get('aliases') or [f['name']]))
                     mutate_products([getattr(insts[0], f['name'], None) for f in spec['fields']
                                      if f['dflt'] == 'fac' and absent(f)])
             else:
